@@ -198,6 +198,14 @@ class Gen:
         if c < 0.72:
             alts = [self.gen_type(depth - 1) for _ in range(r.randint(2, 3))]
             return self.mk_union(alts)
+        if self.objects and c < 0.80:
+            n = r.randint(2, 3)
+            alts = [{"k": "obj", "cls": self.gen_class(depth - 1, plain=r.random() < 0.6, kind="dataclass")} for _ in range(n)]
+            if r.random() < 0.5:
+                keys = [a["cls"] for a in alts]
+            else:
+                keys = r.sample(["x", "y", "zz", "a"], n)
+            return {"k": "dunion", "alts": alts, "alias": r.choice(["kind", "type"]), "keys": keys}
         if self.objects:
             return {"k": "obj", "cls": self.gen_class(depth - 1)}
         return self.gen_leaf()
@@ -361,6 +369,12 @@ class Gen:
             return None
         if k == "obj":
             return self.obj_image(T["cls"], d)
+        if k == "dunion":
+            got = dict((key, v) for key, v in d["o"])
+            tag = got.get(T["alias"], {}).get("s")
+            if tag in T["keys"]:
+                return self.obj_image(T["alts"][T["keys"].index(tag)]["cls"], d)
+            return None
         return None
 
     def obj_image(self, cls, d):
@@ -395,7 +409,7 @@ class Gen:
             return self.quick_valid(T["t"], d)
         if k in ("coll", "tuple"):
             return d["k"] == "arr"
-        if k in ("map", "obj"):
+        if k in ("map", "obj", "dunion"):
             return d["k"] == "obj"
         if k == "lit":
             return d in T["vals"]
@@ -522,6 +536,14 @@ class Gen:
             return None
         if k == "obj":
             return self.gen_valid_obj(T["cls"], cons, depth)
+        if k == "dunion":
+            i = r.randrange(len(T["alts"]))
+            d = self.gen_valid_obj(T["alts"][i]["cls"], cons, depth)
+            if d is None:
+                return None
+            o = [p for p in d["o"] if p[0] != T["alias"]]
+            o.insert(r.randint(0, len(o)), [T["alias"], d_str(T["keys"][i])])
+            return d_obj(o)
         return None
 
     def gen_valid_obj(self, cls: str, cons: list, depth: int) -> Optional[dict]:
